@@ -119,6 +119,41 @@ func main() {
 		fmt.Printf("TOTAL units=%d obligations=%d not-discharged=%d load=%.1fs wall=%.1fs\n", len(results), total, bad, loadS, time.Since(t0).Seconds())
 	case "owners":
 		e.dumpOwners()
+	case "audit":
+		// dead-path audit: which checked paths are unreachable under the hypotheses
+		names := fs.Args()
+		if len(names) == 0 {
+			names = e.sweepRoots()
+		}
+		var wg sync.WaitGroup
+		var mu, pmu sync.Mutex
+		sem := make(chan struct{}, 8)
+		for _, n := range names {
+			if strings.Contains(n, ":") {
+				continue
+			}
+			wg.Add(1)
+			go func(n string) {
+				defer wg.Done()
+				sem <- struct{}{}
+				defer func() { <-sem }()
+				mu.Lock()
+				r := e.buildUnit(n)
+				mu.Unlock()
+				if r.Err != nil || r.VC == nil {
+					return
+				}
+				flags := solveUnit(r.VC, SolveOpts{TimeoutMs: 2000, RecheckMs: 4000})
+				dead := deadGuards(r.VC, flags, 1500)
+				pmu.Lock()
+				fmt.Printf("== %s: %d dead paths\n", n, len(dead))
+				for _, d := range dead {
+					fmt.Println("   DEAD", d)
+				}
+				pmu.Unlock()
+			}(n)
+		}
+		wg.Wait()
 	case "check":
 		os.Exit(e.checkProperty(*verif, *prop, *tier, t0))
 	default:
